@@ -17,7 +17,7 @@ Definition no_comp : comp := {| c_generated := false; c_stored := None; c_curren
 Definition explicit (d : dict) : comp := {| c_generated := false; c_stored := Some d; c_current := Some d |}.
 
 Definition mkn (i : N) (parent : option N) (m : str) (path : str) (pp : comp) (params linked : list (N * str)) (st : option N) : node :=
-  {| n_id := i; n_parent := parent; n_method := m; n_path := path; n_pp := pp; n_query := no_comp;
+  {| n_id := i; n_parent := parent; n_method := m; n_path := path; n_pp := pp; n_query := no_comp; n_headers := no_comp; n_cookies := no_comp;
      n_params := params; n_linked := linked; n_status := st |}.
 
 Definition id1 : comp := explicit [(s_id, s_one)].
@@ -958,3 +958,85 @@ Lemma unrelated_nonvacuous :
   parent_not_3xx h_other c_other = true /\ override_faithful c_other = true /\
   forallb (fun d => N.eqb (n_id d) (n_id c_other) || negb (same_resource d c_other)) h_other = true.
 Proof. repeat split; try (vm_compute; reflexivity). right. right. left. reflexivity. Qed.
+
+(* ---------- the 'all parameters come from links' test is per (location, name) ---------- *)
+Lemma avail_with_is_code h c st :
+  ensure_resource_availability_with overrides_all h c st = ensure_resource_availability h c st.
+Proof. reflexivity. Qed.
+
+Lemma linked_at_In c p : linked_at c p = true <-> In p (n_linked c).
+Proof.
+  unfold linked_at. rewrite existsb_exists. split.
+  - intros (q & Hq & E). apply andb_true_iff in E. destruct E as [E1 E2].
+    apply N.eqb_eq in E1. apply str_eqb_spec in E2. destruct p, q. cbn in *. subst. exact Hq.
+  - intros Hp. exists p. split; [exact Hp|]. rewrite N.eqb_refl, str_eqb_refl. reflexivity.
+Qed.
+
+(* reported only if every declared parameter (location, name) of the request was provided by a link *)
+Lemma avail_only_if_located_linked h c st : wf h = true -> In c h -> is_last h c = true ->
+  prefix_region_all h c = true -> parent_not_3xx h c = true -> override_faithful c = true ->
+  reported (ensure_resource_availability h c st) = true ->
+  forall loc name, In (loc, name) (n_params c) -> In (loc, name) (n_linked c).
+Proof.
+  intros Hw Hc Hl Hreg H3 Hov Hrep loc name Hp.
+  pose proof (avail_sound h c st Hw Hc Hl Hreg H3 Hov Hrep) as Ha.
+  unfold avail_allowed in Ha.
+  destruct ((400 <=? st) && (st <? 500)); [|discriminate]. cbn [andb] in Ha.
+  destruct (n_parent c) as [pid|]; [|discriminate].
+  destruct (get h pid) as [p|]; [|discriminate].
+  apply andb_true_iff in Ha. destruct Ha as [Ha _]. apply andb_true_iff in Ha. destruct Ha as [_ Ha].
+  unfold all_linked in Ha. rewrite forallb_forall in Ha. specialize (Ha _ Hp).
+  apply linked_at_In. exact Ha.
+Qed.
+
+(* the declared location decides: whatever the other containers hold, a parameter whose own container reports no
+   override of its name stops the report *)
+Lemma avail_needs_own_container h c st p :
+  In p (n_params c) -> param_overridden c p = false -> reported (ensure_resource_availability h c st) = false.
+Proof.
+  intros Hp Hno. unfold ensure_resource_availability.
+  assert (overrides_all c = false) as Eov.
+  { unfold overrides_all. destruct (forallb (param_overridden c) (n_params c)) eqn:E; [|reflexivity].
+    rewrite forallb_forall in E. rewrite (E p Hp) in Hno. discriminate. }
+  rewrite Eov.
+  destruct (negb ((400 <=? st) && (st <? 500))); [reflexivity|].
+  destruct (find_parent h (n_id c)) as [|q|]; try reflexivity.
+  destruct (find_response h (n_id q)); [|reflexivity].
+  destruct (str_eqb (upper_ascii (n_method q)) M_POST && in_2xx_3xx (Some n)); [|reflexivity].
+  destruct (is_prefix_n q c) as [[|]|]; reflexivity.
+Qed.
+
+(* POST /orgs 201 -> GET /orgs/{id}/members?id=..: the link fills path.id (explicit container), the query id is generated *)
+Definition s_orgs : str := [47; 111; 114; 103; 115].                                               (* /orgs *)
+Definition s_orgs_members : str := s_orgs ++ [47; 123; 105; 100; 125; 47; 109; 101; 109; 98; 101; 114; 115]. (* /orgs/{id}/members *)
+Definition generated (d : dict) : comp := {| c_generated := true; c_stored := Some d; c_current := Some d |}.
+Definition p_id_path_query : list (N * str) := [(0, s_id); (3, s_id)].
+Definition post_orgs : node := mkn 1 None m_post s_orgs no_comp [] [] (Some 201).
+Definition c_samename : node :=
+  {| n_id := 2; n_parent := Some 1; n_method := m_get; n_path := s_orgs_members; n_pp := id1;
+     n_query := generated [(s_id, [97])]; n_headers := no_comp; n_cookies := no_comp;
+     n_params := p_id_path_query; n_linked := [(0, s_id)]; n_status := Some 404 |}.
+Definition h_samename : history := [post_orgs; c_samename].
+
+Lemma avail_by_name_refuted :
+  wf h_samename = true /\ In c_samename h_samename /\ is_last h_samename c_samename = true /\
+  prefix_region_all h_samename c_samename = true /\ parent_not_3xx h_samename c_samename = true /\
+  override_faithful c_samename = true /\
+  reported (ensure_resource_availability_by_name h_samename c_samename 404) = true /\
+  avail_allowed h_samename c_samename 404 = false /\
+  ensure_resource_availability h_samename c_samename 404 = Pass.
+Proof. repeat split; try (vm_compute; reflexivity). right. left. reflexivity. Qed.
+
+(* the same request with both ids from the link (both containers explicit): reported, and allowed *)
+Definition c_samename_linked : node :=
+  {| n_id := 2; n_parent := Some 1; n_method := m_get; n_path := s_orgs_members; n_pp := id1;
+     n_query := explicit [(s_id, [97])]; n_headers := no_comp; n_cookies := no_comp;
+     n_params := p_id_path_query; n_linked := p_id_path_query; n_status := Some 404 |}.
+Definition h_samename_linked : history := [post_orgs; c_samename_linked].
+Lemma avail_samename_nonvacuous :
+  wf h_samename_linked = true /\ In c_samename_linked h_samename_linked /\ is_last h_samename_linked c_samename_linked = true /\
+  prefix_region_all h_samename_linked c_samename_linked = true /\ parent_not_3xx h_samename_linked c_samename_linked = true /\
+  override_faithful c_samename_linked = true /\
+  ensure_resource_availability h_samename_linked c_samename_linked 404 = Reported 1 /\
+  avail_allowed h_samename_linked c_samename_linked 404 = true.
+Proof. repeat split; try (vm_compute; reflexivity). right. left. reflexivity. Qed.
